@@ -71,6 +71,11 @@ def variants(d, rng: random.Random):
                     c = corpus.neutral_code(g, rng)
                     if c != base_codes[j]:
                         out.append((f"na{i+1}+key{j+1}", corpus.build_payload(d, {**base_codes, i: na, j: c})))
+    # a text key: ids that differ only in blanks at their ends, or in letter case, are different keys
+    for i, f in enumerate(d["fields"]):
+        if f["pk"] and f["kind"] == "strlau" and f["off"] >= 0:
+            for txt in (b"KSFO", b"KSFO ", b" KSFO", b"KSFO\t", b"ksfo", b"", b" ", b"KSFX"):
+                out.append((f"text{i+1}", corpus.build_payload(d, {**base_codes, i: txt}, rng)))
     # two key fields: pairs of key values whose decimal texts glue to the same string (1|11 and 11|1, 2|20 and 22|0):
     # a hash over a separator-less concatenation cannot tell them apart
     keys = [i for i, f in enumerate(d["fields"]) if f["pk"] and i in base_codes and f["match"] == -1 and f["len"] >= 5
@@ -145,7 +150,8 @@ def _bind(chk, tier, seed, wd, db, rng, dec, dec2, off, late):
     n_late = [0]
     cross: list = []          # one observation per definition with a not-available key: hashes of different definitions differ
     defs = [d for d in db["defs"] if d["decodable"] and d["static"]]
-    keyed = [d for d in defs if any(f["pk"] for f in d["fields"])]
+    # every decodable definition with key fields, the ones with variable-length (text) fields included
+    keyed = [d for d in db["defs"] if d["decodable"] and any(f["pk"] for f in d["fields"])]
     plain = [d for d in defs if not any(f["pk"] for f in d["fields"])]
     chosen = keyed + plain[:: (1 if tier == "thorough" else 3 if tier != "selftest" else 12)]
     chosen.sort(key=lambda d: d["idx"])          # database order: siblings of one PGN follow each other
